@@ -9,3 +9,24 @@ pub fn stub_reader_new() -> csv_core::Reader {
 }
 
 pub fn stub_build_dfa(_r: &mut csv_core::Reader) {}
+
+/// bincode's `Vec<T>::decode` asks `unty::type_equal::<T, u8>()` (a `TypeId` obtained through a
+/// `dyn` call) to pick its bulk-read fast path.  CBMC cannot fold the virtual call, explores both
+/// branches and merges them, after which the reader position is no longer a constant and nothing
+/// downstream folds.  Comparing the type names is the same predicate for the types involved here
+/// and is a constant-data comparison.
+pub fn stub_type_equal<Src: ?Sized, Target: ?Sized>() -> bool {
+    let a = core::any::type_name::<Src>().as_bytes();
+    let b = core::any::type_name::<Target>().as_bytes();
+    if a.len() != b.len() {
+        return false;
+    }
+    let mut i = 0;
+    while i < a.len() {
+        if a[i] != b[i] {
+            return false;
+        }
+        i += 1;
+    }
+    true
+}
